@@ -166,15 +166,47 @@ func init() {
 		"verifGuardOff":   func(fr *frame, args []value) value { fr.m.guardOn = false; return nil },
 		"verifRaceStress": noop,
 		"verifDailyLog":   inDailyLog,
+		"verifWatchDailyLog": noop,
+		"verifSetStdin": func(fr *frame, args []value) value {
+			bs, _ := args[0].([]value)
+			fr.m.stdin = append([]value(nil), bs...)
+			fr.m.stdinChunk = int(fr.m.asInt(args[1], "stdin chunk"))
+			if fr.m.stdinChunk < 1 {
+				fr.m.stdinChunk = 1
+			}
+			fr.m.stdout = nil
+			return nil
+		},
+		"verifStdout":       func(fr *frame, args []value) value { return append([]value(nil), fr.m.stdout...) },
+		"verifRestoreStdio": noop,
 		"verifTempDir":    func(fr *frame, args []value) value { return "/verif-scratch-dir" },
 		"verifRemoveDir":  noop,
-		"verifSlow": func(fr *frame, args []value) value {
-			s := fr.m.sched
-			if s.mode == schedBounded {
-				s.visible(fr.g)
-			} else {
-				s.yield(fr.g)
+		"verifFixedClock": func(fr *frame, args []value) value {
+			fr.m.fixedNow = uint64(fr.m.asInt(args[0], "fixed clock"))
+			return nil
+		},
+		"verifCountByte": func(fr *frame, args []value) value {
+			st := fr.m.st()
+			bs, _ := args[0].([]value)
+			c := args[1].(*Term)
+			r := BV(0, 64)
+			n := uint64(0)
+			for _, b := range bs {
+				t := b.(*Term)
+				if t.IsConst() && c.IsConst() {
+					if t.c == c.c {
+						n++
+					}
+					continue
+				}
+				r = st.Add(r, st.Ite(st.Eq(t, c), BV(1, 64), BV(0, 64)))
 			}
+			return st.Add(r, BV(n, 64))
+		},
+		"verifSlow": func(fr *frame, args []value) value {
+			// a slow call always lets the others run, in every mode (fairness:
+			// a goroutine that polls must not starve the rest of the program)
+			fr.m.sched.yield(fr.g)
 			return nil
 		},
 		"verifClockModel": func(fr *frame, args []value) value {
